@@ -1,0 +1,93 @@
+//! Verification hooks (compiled only with the `verif-hooks` cargo feature).
+//!
+//! Off by default: without the feature this module does not exist and no call site is compiled.
+//! With the feature, but with no hook installed on the calling thread, every [`tick`] is a no-op
+//! and the lock shim behaves like `std::sync::Mutex`.
+//!
+//! The hooks give an external simulator two seams the crate otherwise lacks:
+//! * a labelled *tick* at every storage step boundary (each connection use, each step inside the
+//!   explicit transactions / savepoints, each phase of the constructors), at which the simulator
+//!   may take a file image and unwind (simulated process death), and
+//! * a scheduling point at every acquisition of the connection lock and of the key-generation
+//!   lock, so a controlled scheduler decides which caller thread proceeds.
+
+use std::cell::RefCell;
+
+/// Where a tick fires.
+#[derive(Debug, Clone, Copy, PartialEq, Eq)]
+pub enum Point {
+    /// Top of `with_connection` (one auto-committed storage operation follows).
+    Conn,
+    /// A step inside an explicit transaction or savepoint.
+    Txn(&'static str),
+    /// A phase boundary inside a constructor.
+    Open(&'static str),
+    /// About to (re)try acquiring a lock.
+    Lock,
+}
+
+type Hook = Box<dyn FnMut(Point)>;
+
+thread_local! {
+    static HOOK: RefCell<Option<Hook>> = const { RefCell::new(None) };
+}
+
+/// Install (or remove) the hook of the calling thread. Returns the previous one.
+pub fn set_thread_hook(hook: Option<Hook>) -> Option<Hook> {
+    HOOK.with(|h| std::mem::replace(&mut *h.borrow_mut(), hook))
+}
+
+/// Fire a tick. No-op without a hook. The hook may unwind.
+pub fn tick(point: Point) {
+    // Take the hook out while it runs so that a hook that unwinds or re-enters leaves the
+    // slot in a defined state (empty) instead of a poisoned borrow.
+    let taken = HOOK.with(|h| h.borrow_mut().take());
+    if let Some(mut hook) = taken {
+        hook(point);
+        HOOK.with(|h| {
+            let mut slot = h.borrow_mut();
+            if slot.is_none() {
+                *slot = Some(hook);
+            }
+        });
+    }
+}
+
+/// Lock shim: same surface as the parts of `std::sync::Mutex` this crate uses.
+pub mod sync {
+    use std::sync::{LockResult, MutexGuard, PoisonError, TryLockError};
+
+    /// `std::sync::Mutex` whose `lock` is a sequence of scheduling points.
+    #[derive(Debug, Default)]
+    pub struct Mutex<T>(std::sync::Mutex<T>);
+
+    impl<T> Mutex<T> {
+        /// See `std::sync::Mutex::new`.
+        pub const fn new(value: T) -> Self {
+            Self(std::sync::Mutex::new(value))
+        }
+
+        /// See `std::sync::Mutex::lock`. Ticks [`super::Point::Lock`] before every attempt.
+        pub fn lock(&self) -> LockResult<MutexGuard<'_, T>> {
+            loop {
+                super::tick(super::Point::Lock);
+                match self.0.try_lock() {
+                    Ok(guard) => return Ok(guard),
+                    Err(TryLockError::Poisoned(e)) => {
+                        return Err(PoisonError::new(e.into_inner()));
+                    }
+                    Err(TryLockError::WouldBlock) => {
+                        if !super::hook_installed() {
+                            return self.0.lock();
+                        }
+                    }
+                }
+            }
+        }
+    }
+}
+
+/// Is a hook installed on the calling thread?
+pub fn hook_installed() -> bool {
+    HOOK.with(|h| h.try_borrow().map(|s| s.is_some()).unwrap_or(true))
+}
